@@ -162,6 +162,29 @@ P = {
        "types with the same hash160, and perturbed messages.",
   note=TB + "OpenSSL (BN_*, EC_POINT_*) inside recover is covered by T2 only.",
   tech="Lean 4 proof of the glue (digest layout, header byte, decision logic) + abstract recovery algebra + correspondence against a Lean reference curve"),
+ 'C06': dict(
+  text="Lean simulation theorems between the model of scripteval.py (as written, every Python exception site "
+       "explicit) and a reference interpreter in the shape of Bitcoin Core's interpreter.cpp, for arbitrary byte "
+       "lists as scripts, arbitrary initial stacks and contexts: step_equiv per opcode class, lifted to eval_equiv / "
+       "eval_fails_iff (fails exactly when the reference fails) and eval_stack (same final stack), and verify_equiv "
+       "(VerifyScript accepts exactly when the reference accepts) under the 12 admissible flag sets — every opcode "
+       "class including CHECKSIG/CHECKMULTISIG with FindAndDelete, CODESEPARATOR, NULLDUMMY, and all four limits; "
+       "script-number codec = CScriptNum on all integers. Tied by T1 (all 256 opcodes, names, disabled set, limits) "
+       "and runs: every 1-opcode program × ~60 stacks × 12 flag sets, grammar-generated programs with real "
+       "signatures, limit probes, multi-call histories.",
+  note=TB + "Hypotheses of the full theorems: 0 ≤ inIdx; the signature check ignores a leading OP_CODESEPARATOR of the script code (what C03's findAndDelete_codesep gives for the real sighash); hash outputs ≤ 520 bytes; EvalScript caller stack ≤ 1000 items. Signature checking is an opaque function shared by both sides (strict-DER/SEC1 domain of the property).",
+  tech="Lean 4 proof (forward simulation model ↔ reference interpreter, induction over the operation list) + tables + correspondence (exhaustive short programs)"),
+ 'C07': dict(
+  text="Lean theorems for ARBITRARY byte lists as scriptSig/scriptPubKey: verify_total (structural termination), "
+       "only_known_findings / verify_contained (with 0 ≤ inIdx and admissible flags the outcome is ok or a "
+       "validation error: every IndexError / KeyError / struct.error / AssertionError / invalid-script site of the "
+       "model is dead), error_state_limits (captured state ≤ 1003 items, ≤ 221 counted ops, elements ≤ 520 bytes), "
+       "and the same for EvalScript. Side-effect freedom is proved on C09's heap model and observed here. Tied by "
+       "runs on random and structure-aware mutated byte strings (0..10 001 bytes, truncated pushes at every position, "
+       "P2SH with garbage redeem scripts), mutable and immutable transactions, in/out-of-range indices; txTo and "
+       "scripts compared before/after. Known findings D6, D7 are listed in known_findings.json.",
+  note=TB + "HashesOK (hash outputs ≤ 520 bytes) is a hypothesis; OpenSSL's tolerant DER parsing is outside the model (domain restriction of the property).",
+  tech="Lean 4 proof (dead-branch / invariant by induction over interpreter steps) + correspondence on arbitrary byte strings"),
 }
 
 REASON_PENDING = "check under construction in this build round (model/theorems not yet merged); see DESIGN.md §10/§11"
